@@ -409,7 +409,14 @@ def run(chk, replay=None):
         out, _ = C.run_lines(exe, cut)
         reason = next((o.split(" | BAD ")[1] for o in out if " | BAD " in o), a.split(" | BAD ")[-1])
         ops = [l.split()[0] for l in cut[1:]]
-        tags = {"kind": reason.split()[0], "ops": " ".join(ops)}
+        # the same, with every loadcut marked by the verdict of the real cache::load (`loadcut <ok> <tokens>`)
+        ops_r = []
+        for l, o in zip(cut[1:], out[1:]):
+            w, ot = l.split()[0], strip(o).split()
+            if w == "loadcut" and len(ot) >= 2 and ot[0] == "loadcut":
+                w += "-accepted" if ot[1] == "1" else "-rejected"
+            ops_r.append(w)
+        tags = {"kind": reason.split()[0], "ops": " ".join(ops), "ops_r": " ".join(ops_r)}
         chk.violation("%s: on the real cache, sequence %s (shrunk to %d operations): %s" %
                       (reason, name, len(cut) - 1, " ; ".join(cut)[:1200]),
                       {"lines": cut, "answers": out, "oracle": reason}, tags=tags)
